@@ -188,8 +188,9 @@ def sensitivity(run, which):
                 continue
             meta = json.load(open(mp))
             props = meta.get("properties") or [meta.get("property")]
-            det = meta.get("detected_by", props)
-            if which in det:
+            # a variant is a sensitivity obligation for the properties it was written against
+            # (cross-detections by other checks are recorded in meta but are not required)
+            if which in props and (root.endswith("seeded") or meta.get("expect_rule") is not None):
                 jobs.append((name, d, meta))
     from concurrent.futures import ThreadPoolExecutor
 
